@@ -292,7 +292,7 @@ def universe(tier):
         for T in tables(5, (1.0, 2.0, inf)):
             yield 5, T, True
         for k, T in enumerate(tables(5, (1.0, 2.0, 3.0, inf))):
-            if k % 8 == 0 and any(v == 3.0 for row in T for v in row):     # every 8th table that really uses the 4th value
+            if k % 2 == 0 and any(v == 3.0 for row in T for v in row):     # every 2nd table that really uses the 4th value
                 yield 5, T, False
         for T in tables(6, (1.0, inf)):
             yield 6, T, False
@@ -353,8 +353,8 @@ def run(ctx):
         PROP, ctx.tier, ctx.seed, acc,
         rule='every upper-triangular distance table for n = 2..4 over {1,2,3,inf} and n = 5 over {1,2,inf}%s x max_dist x {no hook, weight hook, order hook, both}; every merge transition is '
              'monitored through merge_hook; HierarchicalTree and repeated fits for the small tables; LinkageTree vs scipy for finite tables; real dtw.distance_matrix (Python and C) on all '
-             'collections of 2..4 short series; non-trivial = ties, an infinite entry or at least two merges' % ('; thorough: n = 5 with tree variants, every 8th n = 5 table over {1,2,3,inf}, n = 6 over {1,inf}' if ctx.thorough else ''),
-        bounds={'synthetic': 'n<=4: 4^(n(n-1)/2) tables x 4 max_dist x 4 hook sets; n=5: 3^10 tables x 2 x 2 (thorough: with tree variants, plus every 8th of the 4^10 tables over {1,2,3,inf} and n=6: 2^15 tables)', 'real': 'series over a 2-letter alphabet with lengths 1..2; histories: fit with max_dist m1, set max_dist m2, fit again, wrap in HierarchicalTree (all ordered pairs of up to 4 thresholds: inf, gaps, exact pair distances)'},
+             'collections of 2..4 short series; non-trivial = ties, an infinite entry or at least two merges' % ('; thorough: n = 5 with tree variants, every 2nd n = 5 table over {1,2,3,inf}, n = 6 over {1,inf}' if ctx.thorough else ''),
+        bounds={'synthetic': 'n<=4: 4^(n(n-1)/2) tables x 4 max_dist x 4 hook sets; n=5: 3^10 tables x 2 x 2 (thorough: with tree variants, plus every 2nd of the 4^10 tables over {1,2,3,inf} and n=6: 2^15 tables)', 'real': 'series over a 2-letter alphabet with lengths 1..2; histories: fit with max_dist m1, set max_dist m2, fit again, wrap in HierarchicalTree (all ordered pairs of up to 4 thresholds: inf, gaps, exact pair distances)'},
         assumptions=['monitor invariants are exactly those of C15: two live prototypes, distance = current minimum over live pairs, non-decreasing, <= max_dist, partition keyed by contained prototypes, '
                      'no two remaining prototypes within max_dist', 'with infinite entries only forest well-formedness of the tree is demanded (C15 does not define merging at infinite distance)',
                      'tie-breaking order and which index stays prototype are not prescribed by C15 and are not compared with a reference run'],
